@@ -225,6 +225,9 @@ pub fn run_threads(out_prefix: &str, shards: usize, seed: u64, scale: usize) -> 
                 for (seq, &hi) in order.iter().enumerate() {
                     let h = &hays[hi];
                     let mut cs = vec![];
+                    // an anchored search first: whatever it leaves behind must not reach the next call
+                    let ma = ac.try_find(Input::new(h).anchored(aho_corasick::Anchored::Yes));
+                    cs.push(json!(["find", true, false, if ma.is_ok() {"ok"} else {"err"}, om2v(&ma.unwrap_or(None)), seq]));
                     let m = ac.try_find(Input::new(h));
                     cs.push(json!(["find", false, false, if m.is_ok() {"ok"} else {"err"}, om2v(&m.unwrap_or(None)), seq]));
                     let it: Vec<Value> = ac.find_iter(h).map(|m| m2v(&m)).collect();
@@ -282,6 +285,7 @@ pub fn run_threads(out_prefix: &str, shards: usize, seed: u64, scale: usize) -> 
         for &hi in &order {
             let h = &hays[hi];
             let _ = ac.find_iter(&hays[(hi + 7) % hays.len()]).count();
+            let _ = ac.try_find(Input::new(h).anchored(aho_corasick::Anchored::Yes));
             let m = ac.find(h);
             let it: Vec<Value> = ac.find_iter(h).map(|m| m2v(&m)).collect();
             out.put(i, &json!({"ev":"multi","c":cl,"hay":h,"s":0,"e":h.len(),"thread":-1,
@@ -392,6 +396,16 @@ fn build_shapes(rg: &mut StdRng, big: bool) -> Vec<(String, Pats)> {
     // DFA need more than 2^24 words / state ids beyond 2^24 (a collection far inside the
     // documented limits)
     v.push(("bulk-1200x64".into(), (0..1200).map(|i| { let mut r = gen::rng(i as u64, 0xB18); (0..64).map(|_| r.gen_range(0..=255u8)).collect() }).collect()));
+    // around the packed searcher's pattern limit (128): diverse first bytes and length >= 2, so that a
+    // leftmost searcher with a prefilter considers the packed one
+    for n in [127usize, 128, 129, 130, 140, 193, 260] {
+        v.push((format!("diverse-{}", n), (0..n).map(|i| {
+            let mut r = gen::rng(i as u64, 0xB19);
+            let mut w = vec![b'!' + (i % 90) as u8, b'a' + ((i / 90) % 26) as u8];
+            w.extend((0..r.gen_range(1..=3)).map(|_| b'a' + r.gen_range(0..26u8)));
+            w
+        }).collect()));
+    }
     if big {
         v.push(("p3000x60".into(), (0..3000).map(|i| { let mut r = gen::rng(i as u64, 0xB16); (0..r.gen_range(20..=60)).map(|_| b'a' + r.gen_range(0..6u8)).collect() }).collect()));
         v.push(("p500x300".into(), (0..500).map(|i| { let mut r = gen::rng(i as u64, 0xB17); (0..300).map(|_| r.gen_range(0..=255u8)).collect() }).collect()));
@@ -469,7 +483,7 @@ pub fn run_ids(out_prefix: &str, shards: usize, seed: u64, scale: usize) -> (usi
         for mk in MKS {
             for repr in ["top-auto", "top-nc", "top-c"] {
                 let mut c = Ctx::new(pats, mk, repr);
-                c.pre = si % 2 == 0;
+                c.pre = si % 2 == 0 || _name.starts_with("diverse");
                 let s = Searcher::build(&c);
                 let mut r = Rec::begin(&mut out, si, &c, &s);
                 nc += 1;
@@ -482,6 +496,18 @@ pub fn run_ids(out_prefix: &str, shards: usize, seed: u64, scale: usize) -> (usi
                     r.put(json!(["occ", true, false, o, res, k]));
                     r.flush(&h, (0, h.len()));
                     ne += 1;
+                    // ... and unanchored inside padding long enough for vector prefilters (the id must
+                    // survive whatever renumbering a prefilter does internally)
+                    if pats.len() <= 300 {
+                        let mut h2 = vec![b' '; 24];
+                        h2.extend_from_slice(&pats[k]);
+                        h2.extend(vec![b' '; 24]);
+                        let g = guarded(|| s.try_find(Input::new(&h2)).map(|m| om2v(&m)));
+                        let (o, res) = match g { Ok(Ok(v)) => ("ok", v), Ok(Err(e)) => ("err", json!(e.to_string())), Err(p) => ("panic", json!(p)) };
+                        r.put(json!(["find", false, false, o, res, k]));
+                        r.flush(&h2, (0, h2.len()));
+                        ne += 1;
+                    }
                 }
             }
         }
